@@ -110,6 +110,62 @@ def delaunay(n, seed):
     return Mesh(pts, faces, {"family": "delaunay", "n": n, "seed": seed}, True)
 
 
+def clustered(n, seed):
+    """Delaunay triangulation of a strongly non-uniform point set: a sparse, well-spread background plus tight
+    clusters (caps of 0.5..4 degrees).  Gives nodes of valence >= 4 surrounded by a mix of tiny and very large,
+    very elongated triangles."""
+    from scipy.spatial import ConvexHull
+
+    rng = _rng(seed, n, 19)
+    for _try in range(2000):
+        nb = max(8, n // 3)
+        base = _safe_points(rng, nb)
+        pts = [base]
+        left = n - nb
+        while left > 0:
+            k = int(min(left, rng.integers(3, 9)))
+            c = base[int(rng.integers(0, nb))]
+            r = math.radians(float(rng.uniform(0.5, 4.0)))
+            q = ref.unit(c[None, :] + r * rng.normal(size=(k, 3)))
+            pts.append(q)
+            left -= k
+        P = np.concatenate(pts)
+        if np.any(np.abs(P[:, 2]) > 1 - 1e-6):
+            continue
+        hull = ConvexHull(P)
+        if hull.equations[:, 3].max() < -0.2 and len(hull.vertices) == len(P):
+            break
+    else:
+        raise RuntimeError("no clustered point set found")
+    faces = [_orient(P, list(s)) for s in hull.simplices]
+    return Mesh(P, faces, {"family": "clustered", "n": n, "seed": seed}, True)
+
+
+def bipyramid(k, seed):
+    """Two apex nodes of valence k (3..10) joined to a ring whose nodes alternate between very different
+    distances from the apexes: faces of very different sizes around one node."""
+    rng = _rng(seed, k, 37)
+    hi, lo = math.radians(float(rng.uniform(70, 86))), math.radians(float(rng.uniform(-65, -30)))
+    ring = []
+    for i in range(k):
+        lat = hi if i % 2 == 0 else lo
+        lat += math.radians(float(rng.uniform(-2, 2)))
+        lon = 2 * math.pi * (i + 0.3 * float(rng.uniform(-1, 1))) / k
+        ring.append([math.cos(lat) * math.cos(lon), math.cos(lat) * math.sin(lon), math.sin(lat)])
+    xyz = np.array([[0, 0, 1.0], [0, 0, -1.0]] + ring)
+    faces = []
+    for i in range(k):
+        a, b = 2 + i, 2 + (i + 1) % k
+        faces.append([0, a, b])
+        faces.append([1, b, a])
+    R = ref.rotation_matrix(rng)
+    xyz = ref.unit(xyz @ R.T)
+    faces = [_orient(xyz, f) for f in faces]
+    order = rng.permutation(len(faces))
+    faces = [faces[i] for i in order]
+    return Mesh(xyz, faces, {"family": "bipyramid", "k": k, "seed": seed}, True)
+
+
 def merged(n, seed, frac=0.5):
     """Delaunay triangulation with adjacent faces merged across an edge whenever the union
     stays strictly convex: mixed 3/4/5/6-gons, high-valence nodes."""
@@ -282,6 +338,31 @@ def latlon_patch(nx, ny, lon0, lat0, dlon, dlat):
     )
 
 
+def latlon_global(nlon, nlat):
+    """Closed regular longitude-latitude grid: quads between parallels, triangles around the two pole nodes.
+    Node latitudes are symmetric about the equator (many corner pairs share x, y and differ in z only)."""
+    lats = np.linspace(-90.0, 90.0, nlat + 1)[1:-1]
+    lons = -180.0 + 360.0 * np.arange(nlon) / nlon
+    xyz = [np.array([0.0, 0.0, -1.0])]
+    for la in lats:
+        for lo in lons:
+            xyz.append(ref.lonlat_to_xyz(lo, la))
+    xyz.append(np.array([0.0, 0.0, 1.0]))
+    xyz = np.array(xyz)
+    nid = lambda j, i: 1 + j * nlon + (i % nlon)  # noqa: E731
+    top = len(xyz) - 1
+    faces = []
+    for i in range(nlon):
+        faces.append([0, nid(0, i + 1), nid(0, i)])
+    for j in range(len(lats) - 1):
+        for i in range(nlon):
+            faces.append([nid(j, i), nid(j, i + 1), nid(j + 1, i + 1), nid(j + 1, i)])
+    for i in range(nlon):
+        faces.append([nid(len(lats) - 1, i), nid(len(lats) - 1, i + 1), top])
+    faces = [_orient(xyz, f) for f in faces]
+    return Mesh(xyz, faces, {"family": "latlon_global", "nlon": nlon, "nlat": nlat}, True)
+
+
 def cubed_sphere(ne):
     """Equiangular cubed sphere with shared nodes (closed quad mesh)."""
     t = np.tan(np.linspace(-math.pi / 4, math.pi / 4, ne + 1))
@@ -414,6 +495,12 @@ def build(desc):
         m = latlon_patch(desc["nx"], desc["ny"], desc["lon0"], desc["lat0"], desc["dlon"], desc["dlat"])
     elif fam == "cubed_sphere":
         m = cubed_sphere(desc["ne"])
+    elif fam == "latlon_global":
+        m = latlon_global(desc["nlon"], desc["nlat"])
+    elif fam == "clustered":
+        m = clustered(desc["n"], desc["seed"])
+    elif fam == "bipyramid":
+        m = bipyramid(desc["k"], desc["seed"])
     else:
         raise ValueError(fam)
     for key, val in desc.get("ops", []):
@@ -442,7 +529,7 @@ def apply_op(m, key, val):
 
 def random_mesh(rng, max_faces=200, allow_partial=True, families=None):
     """Draw a mesh descriptor-first so that it can be replayed."""
-    fams = families or ["voronoi", "delaunay", "merged", "polyhedron", "latlon_patch", "cubed_sphere"]
+    fams = families or ["voronoi", "delaunay", "merged", "polyhedron", "latlon_patch", "cubed_sphere", "latlon_global", "clustered", "bipyramid"]
     fam = fams[int(rng.integers(0, len(fams)))]
     seed = int(rng.integers(0, 2**31 - 1))
     if fam == "voronoi":
@@ -456,18 +543,29 @@ def random_mesh(rng, max_faces=200, allow_partial=True, families=None):
         d = {"family": fam, "n": n, "seed": seed, "frac": float(rng.choice([0.3, 0.6, 0.9]))}
     elif fam == "polyhedron":
         d = {"family": fam, "name": POLYHEDRA[int(rng.integers(0, len(POLYHEDRA)))]}
+    elif fam == "latlon_global":
+        d = {"family": fam, "nlon": int(rng.integers(3, max(4, min(24, int(max_faces ** 0.5) + 3)))), "nlat": int(rng.integers(2, max(3, min(14, int(max_faces ** 0.5) + 2))))}
+    elif fam == "clustered":
+        d = {"family": fam, "n": int(rng.integers(12, max(13, max_faces // 2 + 2))), "seed": seed}
+    elif fam == "bipyramid":
+        d = {"family": fam, "k": int(rng.integers(3, 11)), "seed": seed}
     elif fam == "latlon_patch":
         nx = int(rng.integers(1, 9))
         ny = int(rng.integers(1, 7))
         dlon = float(rng.choice([2.0, 5.0, 10.0, 15.0]))
         dlat = float(rng.choice([2.0, 5.0, 10.0]))
         lon0 = float(rng.choice([-179.0, -60.0, -10.0, 100.0, 150.0, 170.0]))
-        lat0 = float(rng.choice([-85.0, -40.0, -5.0, 20.0]))
+        lat0 = float(rng.choice([-85.0, -40.0, -5.0, 20.0, -999.0]))
+        if lat0 == -999.0:
+            lat0 = -0.5 * ny * dlat  # symmetric about the equator
         lat0 = min(lat0, 88.0 - ny * dlat)
         d = {"family": fam, "nx": nx, "ny": ny, "lon0": lon0, "lat0": lat0, "dlon": dlon, "dlat": dlat}
     else:
         d = {"family": fam, "ne": int(rng.integers(1, 6))}
     ops = []
+    if fam == "latlon_global":
+        d["ops"] = [["renumber", int(rng.integers(0, 10**6))]] if rng.random() < 0.4 else []
+        return d
     if allow_partial and fam != "latlon_patch" and rng.random() < 0.35:
         mode = str(rng.choice(["random", "random", "isolated", "one"]))
         ops.append(["partial", [int(rng.integers(0, 10**6)), float(rng.choice([0.3, 0.6, 0.85])), mode]])
